@@ -1014,31 +1014,9 @@ func (p *PikeVM) SearchWithCapturesAt(haystack []byte, at int) *MatchWithCapture
 		return nil
 	}
 
-	if at == len(haystack) {
-		// At end of input - check if empty string matches at this position.
-		// Must use matchesEmptyAt with full haystack context for correct
-		// look assertion evaluation (e.g., \B needs previous byte context).
-		if p.matchesEmptyAt(haystack, at) {
-			return &MatchWithCaptures{
-				Start:    at,
-				End:      at,
-				Captures: p.buildCapturesResult(nil, at, at),
-			}
-		}
-		return nil
-	}
-
-	if len(haystack) == 0 {
-		// Check if empty string matches (haystack is empty, pos=0)
-		if p.matchesEmptyAt(haystack, 0) {
-			return &MatchWithCaptures{
-				Start:    0,
-				End:      0,
-				Captures: p.buildCapturesResult(nil, 0, 0),
-			}
-		}
-		return nil
-	}
+	// at == len(haystack) needs no special case: the search loops seed a thread
+	// at the end position too, which also yields the capture groups of an empty
+	// match there ((a*) on "" is [0 0 0 0], not [0 0 -1 -1]).
 
 	if p.nfa.IsAnchored() {
 		return p.searchAtWithCaptures(haystack, at)
